@@ -50,7 +50,7 @@ N6_LEVELS = 2  # timestamp patterns at n=6: weak orderings with at most this man
 class TG:
     """One timed graph built in a MemoryRepo."""
 
-    __slots__ = ("dag", "ranks", "repo", "ids", "node", "C", "clock", "t", "raw")
+    __slots__ = ("dag", "ranks", "repo", "ids", "node", "C", "clock", "t", "raw", "shaspec")
 
 
 _MEMO = [None, None]
@@ -61,8 +61,13 @@ def _norm(dag, ranks):
     return tuple(tuple(p) for p in dag), tuple(ranks)
 
 
-def make_commits(dag, ranks):
-    """Real dulwich Commit objects for the timed graph (parents in the order given by dag)."""
+def make_commits(dag, ranks, shaspec=()):
+    """Real dulwich Commit objects for the timed graph (parents in the order given by dag).
+
+    shaspec = ((tip, "hi"|"lo"), ...) makes the *object id order* an enumerated axis for childless
+    commits: dulwich breaks timestamp ties by object id, so for a tip listed here the first message
+    nonce is taken (deterministically: 1, 2, 3, ...) under which its id sorts after ("hi") / before
+    ("lo") the ids of all other commits of the graph (tips listed later in shaspec excepted)."""
     from dulwich.objects import Commit, Tree
 
     if _TREE[0] is None:
@@ -80,12 +85,29 @@ def make_commits(dag, ranks):
         c.commit_timezone = c.author_timezone = 0
         c.message = b"c%d\n" % i
         commits.append(c)
+    if shaspec:
+        has_child = {p for ps in dag for p in ps}
+        later = [t for t, _ in shaspec]
+        for t, mode in shaspec:
+            if t in has_child or mode not in ("hi", "lo"):
+                raise HarnessError("shaspec wants a childless commit and hi|lo: %r" % (shaspec,))
+            later.remove(t)
+            others = [c.id for j, c in enumerate(commits) if j != t and j not in later]
+            lo, hi = min(others), max(others)
+            c = commits[t]
+            for nonce in range(1, 100000):
+                if (c.id > hi) if mode == "hi" else (c.id < lo):
+                    break
+                c.message = b"c%d #%d\n" % (t, nonce)
+            else:
+                raise HarnessError("no nonce found for %r" % (shaspec,))
     return tree, commits
 
 
-def graph(dag, ranks) -> TG:
+def graph(dag, ranks, shaspec=()) -> TG:
     dag, ranks = _norm(dag, ranks)
-    if _MEMO[0] == (dag, ranks):
+    shaspec = tuple((int(t), str(m)) for t, m in shaspec)
+    if _MEMO[0] == (dag, ranks, shaspec):
         return _MEMO[1]
     from dulwich.repo import MemoryRepo
 
@@ -95,9 +117,9 @@ def graph(dag, ranks) -> TG:
         if any(p >= i or p < 0 for p in ps) or len(set(ps)) != len(ps):
             raise HarnessError("not a DAG in topological numbering: %r" % (dag,))
     g = TG()
-    g.dag, g.ranks = dag, ranks
+    g.dag, g.ranks, g.shaspec = dag, ranks, shaspec
     g.repo = MemoryRepo()
-    tree, commits = make_commits(dag, ranks)
+    tree, commits = make_commits(dag, ranks, shaspec)
     g.repo.object_store.add_object(tree)
     for c in commits:
         g.repo.object_store.add_object(c)
@@ -109,7 +131,7 @@ def graph(dag, ranks) -> TG:
     g.t = [BASE + STEP * r for r in ranks]
     g.clock = ref.clock_class(dag, g.t)
     g.raw = None
-    _MEMO[0], _MEMO[1] = (dag, ranks), g
+    _MEMO[0], _MEMO[1] = (dag, ranks, shaspec), g
     return g
 
 
@@ -121,9 +143,10 @@ def _key(k):
 
 
 def _desc(g: TG):
-    return "dag=%s times=%s" % (
+    return "dag=%s times=%s%s" % (
         " ".join("%d<-%s" % (i, ",".join(map(str, ps)) or "root") for i, ps in enumerate(g.dag)),
         list(g.ranks),
+        "".join(" [id of c%d sorts %s]" % (t, "last" if m == "hi" else "first") for t, m in g.shaspec),
     )
 
 
@@ -335,16 +358,18 @@ def run_walk(repo, ids, include, exclude, order, reverse, max_entries, since, un
     return [e.commit.id for e in w]
 
 
-def case_walk(acc: Acc, dag, ranks, include, exclude, order, reverse, max_entries, since_rank, until_rank):
+def case_walk(acc: Acc, dag, ranks, include, exclude, order, reverse, max_entries, since_rank, until_rank,
+              shaspec=()):
     """One get_walker() run against the brute-force expectation."""
-    g = graph(dag, ranks)
+    g = graph(dag, ranks, shaspec)
     include, exclude = list(include), list(exclude)
     r_inc, win, exact, since, until = walk_expect(g, include, exclude, since_rank, until_rank)
     filt = [n for n, on in (("exc", bool(exclude)), ("since", since is not None), ("until", until is not None),
                             ("max", max_entries is not None)) if on]
     fclass = "+".join(filt) or "unfiltered"
     must_be_exact = g.clock != "skew" or not filt
-    replay = rp(case_walk, dag, ranks, include, exclude, order, reverse, max_entries, since_rank, until_rank)
+    replay = rp(case_walk, dag, ranks, include, exclude, order, reverse, max_entries, since_rank, until_rank,
+                *([[list(x) for x in g.shaspec]] if g.shaspec else []))
     what = "%s get_walker(include=%s exclude=%s order=%s reverse=%s max_entries=%s since=%s until=%s)" % (
         _desc(g), include, exclude, order, reverse, max_entries,
         None if since_rank is None else "t%d" % since_rank, None if until_rank is None else "t%d" % until_rank)
@@ -536,6 +561,51 @@ def plateau_clocks(n, max_levels):
     return out
 
 
+DEEP_MAX_ROWS = [("date", 1), ("date", 3), ("topo", 2)]
+
+
+def tied_histories(quick):
+    """Histories for the all-equal clock with controlled object-id order of the tips (family "tied"):
+    every two-chain history with 8 commits, and the single chains with 9 and 10 commits (quick: 9)."""
+    out = sorted(set(two_chain_histories(8, False)))
+    for n in (9,) if quick else (9, 10):
+        out.append(tuple(() if i == 0 else (i - 1,) for i in range(n)))
+    return out
+
+
+def tied_cases(dag):
+    """[(shaspec, walk args)]: each tip's id sorting first / last among all commits x include = every single
+    commit or all tips x exclude = each tip (the commits whose place in the tie-break order is controlled)
+    x {unlimited, max_entries 1, 3 (date), 2 (topo)}."""
+    n = len(dag)
+    ch = E.children(dag)
+    tips = tuple(i for i in range(n) if not ch[i])
+    specs = [tuple(zip(tips, modes)) for modes in itertools.product(("hi", "lo"), repeat=len(tips))]
+    incs = [(x,) for x in range(n)] + ([tips] if len(tips) > 1 else [])
+    out = []
+    for spec in specs:
+        for inc in incs:
+            for x in tips:
+                if (x,) == inc:
+                    continue
+                out.append((spec, (inc, (x,), "date", False, None, None, None)))
+                for o, m in DEEP_MAX_ROWS:
+                    out.append((spec, (inc, (x,), o, False, m, None, None)))
+    return out
+
+
+def eval_tied(acc: Acc, dag):
+    ranks = (0,) * len(dag)
+    acc.count("tied_histories")
+    last = None
+    for spec, wa in tied_cases(dag):
+        if spec != last:
+            acc.count("timed_graphs")
+            acc.count("timed_graphs_ties_clock")
+            last = spec
+        case_walk(acc, dag, ranks, *wa, spec)
+
+
 def deep_walk_queries(dag, levels):
     n = len(dag)
     ch = E.children(dag)
@@ -546,6 +616,8 @@ def deep_walk_queries(dag, levels):
         for exc in [()] + [(x,) for x in range(n)]:
             out.append((inc, exc, "date", False, None, None, None))
             out.append((inc, exc, "topo", False, None, None, None))
+            for o, m in DEEP_MAX_ROWS:  # a limit next to an exclude (all clocks here are monotone: exact)
+                out.append((inc, exc, o, False, m, None, None))
         for exc in [()] + [(t,) for t in tips if t not in inc]:
             for lv in range(levels):
                 out.append((inc, exc, "date", False, None, lv, None))
@@ -796,10 +868,67 @@ def case_commit_graph(acc: Acc, dag, ranks):
     case_commit_graph_batch(acc, [(dag, ranks)])
 
 
-def case_commit_graph_batch(acc: Acc, items):
+def _cg_differential(acc: Acc, area, g: TG, repo, ids, replay, light):
+    """Answers of `repo` (disk Repo whose commit-graph is loaded) against the commit objects and the
+    plain in-memory store for one history."""
+    from dulwich.graph import can_fast_forward, find_merge_base
+
+    graph_obj = repo.object_store.get_commit_graph()
+    if graph_obj is None:
+        raise HarnessError("dulwich does not load the commit-graph")
+    dag, n = g.dag, len(g.dag)
+    for i in range(n):
+        ps = graph_obj.get_parents(ids[i])
+        if ps is None:
+            raise HarnessError("commit missing from commit-graph")
+        acc.count("cg_parent_lookups")
+        if list(ps) != [ids[p] for p in dag[i]]:
+            acc.violation(_key(area + ":get_parents:parents-differ-from-commit-object"),
+                          "%s node %d: commit-graph parents %r, commit object %r"
+                          % (_desc(g), i, _nodes(g, ps), list(dag[i])), replay)
+    for a in range(n):
+        for b in range(n):
+            if a == b:
+                continue
+            acc.count("cg_queries", 2)
+            x = _safe(can_fast_forward, repo, ids[a], ids[b])
+            y = _safe(can_fast_forward, g.repo, ids[a], ids[b])
+            if x != y:
+                acc.violation(_key(area + ":can_fast_forward:answer-differs-from-plain-store"),
+                              "%s (c%d,c%d): with commit-graph %r, without %r" % (_desc(g), a, b, x, y), replay)
+            if light and a > b:
+                acc.count("cg_queries", -1)
+                continue
+            x = _safe(find_merge_base, repo, [ids[a], ids[b]])
+            y = _safe(find_merge_base, g.repo, [ids[a], ids[b]])
+            if x != y:
+                acc.violation(_key(area + ":find_merge_base:answer-differs-from-plain-store"),
+                              "%s (c%d,c%d): with commit-graph %r, without %r"
+                              % (_desc(g), a, b, _nodes(g, x) if isinstance(x, list) else x,
+                                 _nodes(g, y) if isinstance(y, list) else y), replay)
+    if light:
+        ch = E.children(dag)
+        tips = tuple(i for i in range(n) if not ch[i])
+        incs = [(x,) for x in range(n)] + ([tips] if len(tips) > 1 else [])
+        walks = [(inc, (), o) for inc in incs for o in ("date", "topo")]
+        walks += [(tips, (x,), "date") for x in range(n) if x not in tips]
+    else:
+        walks = [(inc, exc, o) for inc in E.subsets(range(n), 2, 1) for exc in E.subsets(range(n), 1, 0)
+                 for o in ("date", "topo")]
+    for inc, exc, order in walks:
+        acc.count("cg_queries")
+        x = _safe(run_walk, repo, ids, inc, exc, order, False, None, None, None)
+        y = _safe(run_walk, g.repo, ids, inc, exc, order, False, None, None, None)
+        if x != y:
+            acc.violation(_key(area + ":get_walker:answer-differs-from-plain-store"),
+                          "%s include=%s exclude=%s %s: with commit-graph %r, without %r"
+                          % (_desc(g), inc, exc, order, _nodes(g, x) if isinstance(x, list) else x,
+                             _nodes(g, y) if isinstance(y, list) else y), replay)
+
+
+def case_commit_graph_batch(acc: Acc, items, light=False):
     """C git writes a commit-graph for the histories; dulwich's disk Repo (commit-graph in use)
     must give the same answers as the plain in-memory store."""
-    from dulwich.graph import can_fast_forward, find_merge_base
     from dulwich.repo import Repo
 
     gitdir = _gitdir()
@@ -821,54 +950,78 @@ def case_commit_graph_batch(acc: Acc, items):
         raise HarnessError("git did not write a commit-graph")
     repo = Repo(gitdir)
     try:
-        graph_obj = repo.object_store.get_commit_graph()
-        if graph_obj is None:
-            raise HarnessError("dulwich does not load the commit-graph")
         for dag, ranks, ids in built:
-            g = graph(dag, ranks)
-            n = len(dag)
-            for i in range(n):
-                ps = graph_obj.get_parents(ids[i])
-                if ps is None:
-                    raise HarnessError("commit missing from commit-graph")
-                acc.count("cg_parent_lookups")
-                if list(ps) != [ids[p] for p in dag[i]]:
-                    acc.violation("commit-graph:get_parents:parents-differ-from-commit-object",
-                                  "%s node %d: commit-graph parents %r, commit object %r"
-                                  % (_desc(g), i, _nodes(g, ps), list(dag[i])), rp(case_commit_graph, dag, ranks))
-            for a in range(n):
-                for b in range(n):
-                    if a == b:
-                        continue
-                    acc.count("cg_queries", 2)
-                    x = _safe(can_fast_forward, repo, ids[a], ids[b])
-                    y = _safe(can_fast_forward, g.repo, ids[a], ids[b])
-                    if x != y:
-                        acc.violation("commit-graph:can_fast_forward:answer-differs-from-plain-store",
-                                      "%s (c%d,c%d): with commit-graph %r, without %r" % (_desc(g), a, b, x, y),
-                                      rp(case_commit_graph, dag, ranks))
-                    x = _safe(find_merge_base, repo, [ids[a], ids[b]])
-                    y = _safe(find_merge_base, g.repo, [ids[a], ids[b]])
-                    if x != y:
-                        acc.violation("commit-graph:find_merge_base:answer-differs-from-plain-store",
-                                      "%s (c%d,c%d): with commit-graph %r, without %r" % (_desc(g), a, b, x, y),
-                                      rp(case_commit_graph, dag, ranks))
-            for inc in E.subsets(range(n), 2, 1):
-                for exc in E.subsets(range(n), 1, 0):
-                    for order in ("date", "topo"):
-                        acc.count("cg_queries")
-                        x = _safe(run_walk, repo, ids, inc, exc, order, False, None, None, None)
-                        y = _safe(run_walk, g.repo, ids, inc, exc, order, False, None, None, None)
-                        if x != y:
-                            acc.violation("commit-graph:get_walker:answer-differs-from-plain-store",
-                                          "%s include=%s exclude=%s %s: with commit-graph %r, without %r"
-                                          % (_desc(g), inc, exc, order, x and _nodes(g, x) if isinstance(x, list) else x,
-                                             y and _nodes(g, y) if isinstance(y, list) else y),
-                                          rp(case_commit_graph, dag, ranks))
+            _cg_differential(acc, "commit-graph", graph(dag, ranks), repo, ids, rp(case_commit_graph, dag, ranks), light)
             acc.count("cg_timed_graphs")
     finally:
         repo.close()
         os.unlink(cg)
+
+
+def octopus_histories():
+    """Histories with two or three octopus merges (3+ parents), the shapes whose commit-graph needs more than
+    one entry in the extra-edge chunk:
+      n=5: every DAG whose commits 3 and 4 both have exactly 3 parents (32), parents ascending and descending;
+      n=6: three roots, then three commits with >=3 parents each, every choice (80);
+      n=10: a root with six children, two 3-parent merges of them and a merge of the merges."""
+    out = []
+    for d in E.dags(5, 3):
+        if len(d[3]) == 3 and len(d[4]) == 3:
+            out.append(d)
+            out.append(tuple(tuple(reversed(ps)) for ps in d))
+    for p4 in list(itertools.combinations(range(4), 3)) + [(0, 1, 2, 3)]:
+        for k in (3, 4, 5):
+            for p5 in itertools.combinations(range(5), k):
+                out.append(((), (), (), (0, 1, 2), p4, p5))
+    out.append(((), (0,), (0,), (0,), (0,), (0,), (0,), (1, 2, 3), (4, 5, 6), (7, 8)))
+    return out
+
+
+def case_cg_written(acc: Acc, dag, ranks, mode):
+    """dulwich itself writes the commit-graph (mode 'tips': write_commit_graph(childless commits),
+    'all': write_commit_graph() over every commit in the store) into a fresh disk repository; the
+    repository is re-opened and must answer like the plain in-memory store."""
+    from dulwich.repo import Repo
+
+    dag, ranks = _norm(dag, ranks)
+    g = graph(dag, ranks)
+    d = fresh_dir("c13cgw")
+    try:
+        repo = Repo.init_bare(d)
+        tree, commits = make_commits(dag, ranks)
+        repo.object_store.add_object(tree)
+        for c in commits:
+            repo.object_store.add_object(c)
+        ids = [c.id for c in commits]
+        if ids != g.ids:
+            raise HarnessError("ids differ between the two builds")
+        ch = E.children(dag)
+        replay = rp(case_cg_written, dag, ranks, mode)
+        try:
+            if mode == "tips":
+                repo.object_store.write_commit_graph([ids[i] for i in range(len(dag)) if not ch[i]])
+            else:
+                repo.object_store.write_commit_graph()
+        except Exception as e:
+            acc.violation("commit-graph:dulwich-written:write-raises-%s" % type(e).__name__,
+                          "%s write_commit_graph(%s) raised %r" % (_desc(g), mode, e), replay)
+            return
+        finally:
+            repo.close()
+        acc.count("cgw_histories")
+        if not os.path.exists(os.path.join(d, "objects", "info", "commit-graph")):
+            raise HarnessError("dulwich wrote no commit-graph")
+        v = git(["commit-graph", "verify"], cwd=d, check=False)
+        acc.outcome("cgw:git-commit-graph-verify:%s" % ("accepts" if v.returncode == 0 else "rejects"))
+        repo = Repo(d)
+        try:
+            _cg_differential(acc, "commit-graph:dulwich-written", g, repo, ids, replay, True)
+        finally:
+            repo.close()
+    finally:
+        import shutil
+
+        shutil.rmtree(d, ignore_errors=True)
 
 
 def _safe(fn, *a):
@@ -891,6 +1044,13 @@ def work(task):
     elif kind == "deep":
         for dag, ranks in items:
             eval_deep(acc, dag, ranks)
+    elif kind == "tied":
+        for dag in items:
+            eval_tied(acc, dag)
+    elif kind == "cgw":
+        for dag, ranks, mode in items:
+            case_cg_written(acc, dag, ranks, mode)
+        case_commit_graph_batch(acc, sorted({(d, r) for d, r, m in items if m == "tips" and r[-1] > r[0]}), light=True)
     elif kind == "git":
         case_git_batch(acc, items, params)
         case_commit_graph_batch(acc, items)
@@ -956,16 +1116,32 @@ def run(ctx):
     dn, dcross = (7, False) if q else (8, True)
     deep = []
     plateaus = plateau_clocks(dn, 3)
+    plain = set(two_chain_histories(dn, False))
     for d in two_chain_histories(dn, dcross):
         deep.append((d, tuple(range(dn))))  # strictly increasing clock
         deep.append((d, tuple(i // 2 for i in range(dn))))  # consecutive commits share a second
         for r in plateaus:  # long runs of commits within one second (ties at a since/until boundary)
-            deep.append((d, r))
+            if d in plain or max(r) < 1:  # (histories with a cross merge: only the all-equal plateau)
+                deep.append((d, r))
     deep = ctx.order(sorted(set(deep)))
     label = ("deep: two-chain histories with %d commits (every fork point, every interleaving%s) x {distinct, pairwise-tied, "
-             "every plateau clock with <=3 levels} monotone clocks" % (dn, ", <=1 cross merge" if dcross else ""))
+             "every plateau clock with <=3 levels%s} monotone clocks"
+             % (dn, ", <=1 cross merge" if dcross else "", " (only all-equal for histories with a cross merge)" if dcross else ""))
     phases.append((label, [("deep", part, None) for part in split(deep, max(J * 3, len(deep) // 50))]))
-    bounds[label] = {"timed_graphs": len(deep), "walks": "tips x (none|every single exclude) x date/topo; since/until at every level"}
+    bounds[label] = {"timed_graphs": len(deep), "walks": "tips x (none|every single exclude) x {date, topo, max_entries 1|3 date, 2 topo}; since/until at every level"}
+    tied = ctx.order(tied_histories(q))
+    label = ("tied: every two-chain history with 8 commits + single chains with 9%s commits, all commits in one second, "
+             "object id of each tip forced first / last" % ("" if q else ", 10"))
+    phases.append((label, [("tied", part, None) for part in split(tied, J * 2)]))
+    bounds[label] = {"histories": len(tied), "walks": "include = every commit | all tips, exclude = each tip, unlimited + max_entries rows"}
+    octo = []
+    for d in octopus_histories():
+        n = len(d)
+        octo += [(d, tuple(range(n)), "tips"), (d, (0,) * n, "all"), (d, tuple(reversed(range(n))), "tips")]
+    octo = ctx.order(octo)
+    label = "octopus: histories with 2-3 octopus merges x {increasing, all-equal, decreasing} clocks, commit-graph written by dulwich (and by C git)"
+    phases.append((label, [("cgw", part, None) for part in split(octo, J * 2)]))
+    bounds[label] = {"histories": len(octopus_histories()), "runs": len(octo)}
     gitems = ctx.order(gitset)
     gt = [("git", part, gwide) for part in split(gitems, max(J, len(gitems) // 40))]
     phases.append(("C git + commit-graph", gt))
@@ -982,9 +1158,9 @@ def run(ctx):
     # vacuity guard: the interesting outcome classes must have occurred
     need = ["cff:True:skew", "cff:False:skew", "fmb:1-other:|mb|=2:skew", "fmb:1-other:|mb|=2:strict",
             "walk:topo:exc:skew:ok", "walk:date:exc:strict:ok", "walk:date:since:strict:ok",
-            "git:rl:agrees", "git:mb:agrees", "git:rev-list:date-order-same"]
+            "git:rl:agrees", "git:mb:agrees", "git:rev-list:date-order-same", "walk:date:exc+max:ties:ok"]
     absent = [c for c in need if c not in classes]
-    if absent:
+    if absent and not ctx.acc.viol:  # (with violations on the table the run is not vacuous anyway)
         raise HarnessError("vacuity guard: outcome classes never observed: %r" % absent)
     ctx.coverage.update(
         evaluations=total,
